@@ -22,6 +22,7 @@ func ZZ_C09_Election() {
 	rev := make([]int64, nh)
 	for i := 0; i < nh; i++ {
 		rev[i] = zzNondetInt64("rev." + zzHosts[i])
+		zzAssume(rev[i] >= 0) // A-rev-nonneg: a revision counter starts at 1 and only grows
 	}
 	rebuildingHost := zzConcretize(zzChoice("rebuilding.host", nh+1)) // nh = none
 	dieStep := zzConcretize(zzChoice("die.step", k+1))               // k = never
